@@ -4,6 +4,7 @@ def b_Point_create_node : CR.SrcW.Builder where
   kind := .node
   tag := "point"
   xsd := "point"
+  path := []
   parent := ""
   attrs := []
   gattrs := []
@@ -22,7 +23,8 @@ def b_Point_create_node_z : CR.SrcW.Builder where
   key := "Point.create_node/z"
   kind := .node
   tag := "z"
-  xsd := ""
+  xsd := "point"
+  path := ["z"]
   parent := "Point.create_node"
   attrs := []
   gattrs := []
@@ -35,7 +37,8 @@ def b_Point_create_node_y : CR.SrcW.Builder where
   key := "Point.create_node/y"
   kind := .node
   tag := "y"
-  xsd := ""
+  xsd := "point"
+  path := ["y"]
   parent := "Point.create_node"
   attrs := []
   gattrs := []
@@ -48,7 +51,8 @@ def b_Point_create_node_x : CR.SrcW.Builder where
   key := "Point.create_node/x"
   kind := .node
   tag := "x"
-  xsd := ""
+  xsd := "point"
+  path := ["x"]
   parent := "Point.create_node"
   attrs := []
   gattrs := []
